@@ -263,3 +263,127 @@ def check_noloc(ctx, P, exceptions):
     for x in unresolved_in(P, seen)[:20]:
         ctx.unresolved.append(x)
     return seen
+
+
+# ------------------------------------------------------------------ R-SHARED / R-LIBCMT
+
+def static_access(f, n):
+    """classification of one reference to a variable of static storage duration"""
+    p = f.parent(n)
+    if p is None:
+        return "read"
+    k = p["k"]
+    assign_ops = lambda op: op.endswith("=") and op not in ("==", "!=", "<=", ">=")
+    if k in ("BinaryOperator", "CompoundAssignOperator") and assign_ops(p.get("op", "")) and p["c"][0]["i"] == n["i"]:
+        return "write"
+    if k == "UnaryOperator" and p.get("op") in ("++", "--"):
+        return "write"
+    if k == "UnaryOperator" and p.get("op") == "&":
+        return "address-taken"
+    if k == "MemberExpr":
+        pp = f.parent(p)
+        if pp is not None and pp["k"] == "CXXMemberCallExpr" and pp["c"][0]["i"] == p["i"]:
+            d = f.decl(pp)
+            return "read" if d and d.get("const") else "non-const method %s()" % (d["n"] if d else "?")
+        if pp is not None and pp["k"] in ("BinaryOperator", "CompoundAssignOperator") and pp["c"][0]["i"] == p["i"] \
+                and assign_ops(pp.get("op", "")):
+            return "write (field)"
+        return "read"
+    if k == "CXXOperatorCallExpr":
+        args = call_args(p)
+        if args and args[0] is not None and strip_casts(args[0]) is not None and strip_casts(args[0])["i"] == n["i"]:
+            if p.get("op") in ("=", "+=", "-=", "|=", "&=", "<<=", ">>=", "++", "--"):
+                return "write"
+            if p.get("op") in ("<<", ">>"):
+                return "stream insertion"
+            if p.get("op") in ("[]", "()"):
+                d = f.decl(p)
+                return "read" if d and d.get("const") else "non-const operator%s" % p.get("op")
+        return "read"
+    if k in ("CallExpr", "CXXMemberCallExpr", "CXXConstructExpr"):
+        d = f.decl(p)
+        pts = (d or {}).get("pt", [])
+        for i, a in enumerate(call_args(p)):
+            if a is not None and strip_casts(a) is not None and strip_casts(a)["i"] == n["i"]:
+                pt = f.unit.type(pts[i]) if i < len(pts) else None
+                if pt and pt.get("ref") and not pt.get("const"):
+                    return "passed by non-const reference to %s()" % (d["n"] if d else "?")
+        return "read"
+    return "read"
+
+
+def check_shared(ctx, P, T):
+    tasks = P.subclasses("abigail::workers::task")
+    notif = P.subclasses("abigail::workers::queue::task_done_notify")
+    roots = [u for u, f in P.funcs.items() if not f.dep and
+             ((f.n == "perform" and f.cls in tasks) or (f.n == "operator()" and f.cls in notif))]
+    ctx.floor("R-SHARED", "task perform() / notifier entry points", len(roots), 5)
+    seen = P.reach(roots)
+    n_refs = 0
+    found = {}
+    for u in seen:
+        f = P.funcs.get(u)
+        if f is None or f.dep:
+            continue
+        ctx.analysed(f)
+        for n in f.nodes():
+            if n["k"] != "DeclRefExpr":
+                continue
+            d = f.decl(n)
+            if not d or d["k"] != "Var" or d.get("st") not in ("global", "static_local", "static_member") \
+                    or d.get("const") or d.get("tls"):
+                continue
+            n_refs += 1
+            a = static_access(f, n)
+            if a == "read":
+                continue
+            found.setdefault((d["q"], a), []).append((f, n))
+    for (q, a), lst in sorted(found.items()):
+        f, n = lst[0]
+        listed = q in T["static_exceptions"]
+        ctx.ob("R-SHARED", "mutable static `%s`: %s in task-reachable code" % (q, a), listed, f.loc(n),
+               ("listed: " + T["static_exceptions"][q]) if listed else
+               "a non-const, non-thread_local variable of static storage duration is modified (%s) in %s, which is "
+               "reachable from a worker task: two tasks can race on it.  Path: %s" % (
+                   a, f.q, " -> ".join(p.split("(")[0] for p in P.path_to(seen, f.u)[-5:])))
+    ctx.ob("R-SHARED", "mutable statics referenced in the task closure (%d functions) are only read or listed" % len(seen),
+           True, "", "%d references to mutable statics classified" % n_refs)
+    ctx.floor("R-SHARED", "references to mutable statics in the closure", n_refs, 20)
+    # ---- writes to the shared options object
+    n_opt = 0
+    for u in seen:
+        f = P.funcs.get(u)
+        if f is None or f.dep:
+            continue
+        for n in f.nodes():
+            if n["k"] == "MemberExpr" and n.get("c"):
+                bt = f.type(n["c"][0])
+                if bt and re.sub(r"^const | [&*]$", "", bt["c"]).strip() == "options":
+                    n_opt += 1
+                    par = f.parent(n)
+                    w = par is not None and par["k"] in ("BinaryOperator", "CompoundAssignOperator") and \
+                        par["c"][0]["i"] == n["i"] and par.get("op", "").endswith("=") and \
+                        par.get("op") not in ("==", "!=", "<=", ">=")
+                    if w:
+                        ctx.ob("R-SHARED", "%s writes options.%s" % (f.q, f.decl(n)["n"]), False, f.loc(n),
+                               "all tasks alias one options object; a write from a task races with the other tasks' reads")
+    ctx.ob("R-SHARED", "no task-reachable function writes a field of the shared options object", True, "",
+           "%d accesses to options fields in the closure, all reads" % n_opt)
+    # ---- MT-unsafe libc
+    unsafe = set(T["libc_unsafe"])
+    calls = {}
+    for u in seen:
+        f = P.funcs.get(u)
+        if f is None or f.dep:
+            continue
+        for n, d in f.calls():
+            if d["n"] in unsafe and not d.get("cls") and not d["q"].startswith("abigail"):
+                calls.setdefault(d["n"], []).append((f, n))
+    for nm, lst in sorted(calls.items()):
+        f, n = lst[0]
+        ok = nm in T["libc_triaged"]
+        ctx.ob("R-LIBCMT", "%s() called from task-reachable code" % nm, ok, f.loc(n),
+               ("triaged: " + T["libc_triaged"][nm] + "; callers: " + ", ".join(sorted({g.n for g, _ in lst}))) if ok else
+               "%s() is not MT-safe and is called from %s, reachable from a worker task" % (nm, f.q))
+    for x in unresolved_in(P, seen)[:20]:
+        ctx.unresolved.append(x)
